@@ -291,9 +291,9 @@ class StmtMixin:
             self.exec_block(node.orelse, st)
 
     def merge_value(self, c, a, b, name):
-        if isinstance(a, tuple) and len(a) == 2 and a[0] == 'uninit':
+        if isinstance(a, Uninit):
             return b
-        if isinstance(b, tuple) and len(b) == 2 and b[0] == 'uninit':
+        if isinstance(b, Uninit):
             return a
         if isinstance(a, Ptr) and isinstance(b, Ptr):
             if a.oid == b.oid:
@@ -763,9 +763,9 @@ class StmtMixin:
             if v.oid is None:
                 return v
             return Ptr(v.oid, fresh('hv_' + name + '_off', IntS))
-        if isinstance(v, tuple) and len(v) == 2 and v[0] == 'uninit':
+        if isinstance(v, Uninit):
             from .exec_c import INT_TYPES, FLOAT_TYPES, base_ctype, is_ptr_type
-            t = base_ctype(self.ctype_of(v[1]) or 'idx_t')
+            t = base_ctype(self.ctype_of(v.name) or 'idx_t')
             if is_ptr_type(t):
                 return Ptr(None, 0)
             if t in FLOAT_TYPES:
